@@ -8,6 +8,7 @@ package validate
 import (
 	"github.com/go-openapi/errors"
 	"github.com/go-openapi/spec"
+	"sort"
 )
 
 func strSchema(format string, minLen int64) spec.Schema {
@@ -558,8 +559,15 @@ func HarnessC17Location() {
 		}
 		return root + "." + p
 	}
-	switch verifChoose(8 + 2*verifTier()) {
-	case 8: // thorough: three levels: property -> tuple position -> additionalProperties member
+	want2 := ""
+	perm := false
+	switch verifChoose(9 + 2*verifTier()) {
+	case 8: // several members go through additionalProperties, in every map order: the two offending ones are named
+		s.AdditionalProperties = &spec.SchemaOrBool{Allows: true, Schema: &leaf}
+		d = map[string]interface{}{"e1": bad, "e2": good, "e3": bad}
+		want, want2 = join("e1"), join("e3")
+		perm = true
+	case 9: // thorough: three levels: property -> tuple position -> additionalProperties member
 		deep := spec.Schema{}
 		deep.AdditionalProperties = &spec.SchemaOrBool{Allows: true, Schema: &leaf}
 		tup := spec.Schema{}
@@ -567,7 +575,7 @@ func HarnessC17Location() {
 		s.Properties = map[string]spec.Schema{"t": tup}
 		d = map[string]interface{}{"t": []interface{}{good, map[string]interface{}{"k": bad, "j": good}}}
 		want = join("t.1.k")
-	case 9: // thorough: pattern property -> property -> missing required member
+	case 10: // thorough: pattern property -> property -> missing required member
 		inner := spec.Schema{}
 		inner.Required = []string{"need"}
 		mid := spec.Schema{}
@@ -612,10 +620,13 @@ func HarnessC17Location() {
 		want = join("t.1")
 	}
 	reg := &verifRegistry{}
+	verifPermMaps(perm)
 	res := NewSchemaValidator(&s, nil, root, reg).Validate(d)
+	verifPermMaps(false)
 	names := errorNames(res.Errors)
 	verifAssert(!res.IsValid(), "single-fault-is-rejected")
 	found := false
+	found2 := want2 == ""
 	for _, n := range names {
 		found = verifOr(found, verifStrEq(n, want))
 		if root == "" {
@@ -623,9 +634,15 @@ func HarnessC17Location() {
 			// whether that is "an extension of the root path" is left open by the statement
 			found = verifOr(found, verifStrEq(n, "."+want))
 		}
+		if want2 != "" && (n == want2 || (root == "" && n == "."+want2)) {
+			found2 = true
+		}
 	}
+	verifAssert(found2, "the-second-offending-member-is-named-too")
 	verifObserve("want", want)
-	verifObserve("names", names)
+	sortedNames := append([]string{}, names...)
+	sort.Strings(sortedNames) // the order of errors follows Go's map order
+	verifObserve("names", sortedNames)
 	verifAssert(found, "an-error-names-the-offending-member")
 	// every field-level error is named by the root path or an extension of it that designates an
 	// existing location of the instance (or the missing required member)
